@@ -185,6 +185,39 @@ def shrink(req):
         i += 1
 
 
+WITNESSES = [
+    ('pMember', 'msl', 'st zqs kernel end'),
+    ('pCbuffer', 'dx', 'cb abs - int end ef c zqe zqp { use D0.0 } pl zqP F0 -'),
+    ('pCbufferNs', 'dx', 'ns zqn cb zqc - zqm end end ef c zqe zqp { use D0.0 } pl zqP F0 -'),
+    ('pGenerated', 'vkba', 'rs ba - g_inlineDescriptor0 ef c zqe zqp { use G0 } pl zqP F0 -'),
+    ('pLocalType', 'dx', 'st S zqm end ef c zqe S { use S0 } pl zqP F0 -'),
+    ('pLocalType', 'msl', 'st S zqm end ef c zqe S { use S0 } pl zqP F0 -'),
+    ('pWrapper', 'msl', 'ef c S S { } pl zqP F0 -'),
+    ('pThreaded', 'msl', 'ns N gl s x end ns M gl s x end fn f - { use G0 use G1 } ef c zqe zqp { use F0 } pl zqP F1 -'),
+    ('pInline', 'vkba', 'ns zqn rs ba - x end rs ba - x ef c zqe zqp { use G0 use G1 } pl zqP F0 -'),
+    ('pRelative', 'dx', 'gl c N ns S fn N - { use G0 } end ef c zqe zqp { use F0 } pl zqP F1 -'),
+    ('pMethods', 'dx', 'st S m | f end st T k | f end ef c zqe zqp { } pl zqP F2 -'),
+    ('pMemberMethod', 'dx', 'st S log2_0 | log2 end ef c zqe zqp { } pl zqP F1 -'),
+    ('pGood', 'dx', 'st S a end gl s g rs cbs s0 texture rs ba - sampler fn h i p { lv x use G0 use G1 } ef c main tid { use F0 use G2 } pl P F1 -'),
+    ('pGood', 'vkba', 'st S a end gl s g rs cbs s0 texture rs ba - sampler fn h i p { lv x use G0 use G1 } ef c main tid { use F0 use G2 } pl P F1 -'),
+    ('pGood', 'msl', 'st S a end gl s g rs cbs s0 texture rs ba - sampler fn h i p { lv x use G0 use G1 } ef c main tid { use F0 use G2 } pl P F1 -'),
+]
+
+
+def custom(ctx):
+    """the standard run, then: every witness program of Lemmas/NamesEmitWitness.lean (a Lean term) is the program its corpus
+    request denotes (the model parses the request, compares the two terms and answers for the term), and that answer is
+    what the real compiler produced for the request (compared by the standard run, since the request is in the corpus)"""
+    ctx.standard_run()
+    reqs = ["C15.witness\t%s\t%s\t%s" % w for w in WITNESSES] + ["C15.res\t%s\t%s" % (w[1], w[2]) for w in WITNESSES]
+    out = ctx.run_model(reqs)
+    n = len(WITNESSES)
+    for i, w in enumerate(WITNESSES):
+        if out[i] != out[n + i] or out[i].startswith("witness-differs") or out[i] in ("bad-request", "model-unavailable"):
+            ctx.broken.append("witness %s (%s) is not the program of its corpus request: %s" % (w[0], w[1], out[i][:120]))
+    ctx.extra["witness_programs"] = n
+
+
 SPEC = {
     "id": "C15",
     "gens": ["Reserved"],
@@ -197,6 +230,7 @@ SPEC = {
     "nontrivial": nontrivial,
     "finding_key": finding_key,
     "shrink": shrink,
+    "custom": custom,
     "level_text": "Proof about an executable model of NameMap::build (per-scope sorted groups, names that can be kept are claimed "
                   "first, first free name_k for the rest, enum values as symbols of the enclosing scope, local-variable pass that "
                   "avoids the names of used functions/globals), for every module and reserved list: names are never reserved, never "
